@@ -143,6 +143,9 @@ def merge_stats(stats):
             tot[k] += s.get(k, 0)
         tot["samples"] += s["samples"][:1]
         tot["drifts"] += s.get("drifts", [])
+        for k, v in (s.get("mstats") or {}).items():
+            tot.setdefault("mstats", {})
+            tot["mstats"][k] = tot["mstats"].get(k, 0) + v
     return tot
 
 
@@ -157,6 +160,7 @@ def coverage_mc(tot, design, rule, extra=None):
                model_conformant=(len(tot.get("drifts", [])) == 0),
                ops_conforming_to_Kismet_tla=tot.get("conf_ops", 0),
                drift_first_event=(tot.get("drifts") or [None])[0],
+               monitor_antecedents=tot.get("mstats", {}),
                design_level=[dict(cfg=d["cfg"], states=d["states"], transitions=d["transitions"], ok=d["ok"],
                                   never_taken=d.get("never_taken", []), wall_s=round(d.get("wall", 0), 1)) for d in design])
     if extra:
@@ -255,6 +259,239 @@ def check_C05(work):
     return finish("C05", out, t0, "model_checking", cov, BASE_ASSUME)
 
 
-CHECKS = {"C01": check_C01, "C05": check_C05}
+
+# ---------------------------------------------------------------------------
+# sequential helper
+
+def seq_job(jid, fam, cache, prog, world=(), draw=NEVER, cfg_extra=None, roots=None, pre=(), emul=None, pid=1, mkdirs=("SRC", "TMP"), **kw):
+    """One participant executing `prog` (after optional world-building ops and library-made prefill)."""
+    stages = []
+    if world:
+        stages.append(seq_stage(part(9, plain("SRC/none"), list(world), NEVER)))
+    if pre:
+        stages.append(seq_stage(part(8, cache, with_vals(list(pre), 8), NEVER)))
+    stages.append(seq_stage(part(pid, cache, with_vals(list(prog), pid), draw, **kw)))
+    cfg = {"roots": roots if roots is not None else roots_of(cache), "front": cache["kind"]}
+    cfg["cap"] = cache.get("cap", cache.get("writer", {}).get("cap", 1000000) if isinstance(cache.get("writer"), dict) else 1000000)
+    if cache["kind"] == "stack":
+        cfg["autosync"] = cache.get("auto_sync", True)
+        cfg["checker"] = cache.get("checker", "none")
+    if cfg_extra:
+        cfg.update(cfg_extra)
+    j = job(jid, stages, cfg, None, mkdirs=mkdirs, fam=fam)
+    if emul:
+        j["emul"] = emul
+    return j
+
+
+# ---------------------------------------------------------------------------
+# C16
+
+def c16_names(rng, thorough):
+    fixed = ["", ".", "..", ".x", ".kismet_temp", ".kismet_0000", "/abs", "/", "\\x", "\\", "a", "a.b", "a/b", "a/../b", "x/../../escaped",
+             "x/../../../escaped2", "a/", "a/.", "..a", "a\\b", "\u00e9", "a b", "a" * 255, "a" * 256, "a//b", "-x", "~", "a\nb", "a/b/c",
+             "a/./b", "x/..", "a\u0000b", "\u00e9/\u00e9", "k/.kismet_temp", "a/.hidden"]
+    alpha = ["a", ".", "/", "\\", "\u00e9"]
+    out = list(fixed)
+    if thorough:
+        for n in range(1, 5):
+            for t in itertools.product(alpha, repeat=n):
+                out.append("".join(t))
+    else:
+        for n in range(1, 4):
+            for t in itertools.product(alpha, repeat=n):
+                out.append("".join(t))
+        for _ in range(40):
+            out.append("".join(rng.choice(alpha) for _ in range(4)))
+    seen, res = set(), []
+    for x in out:
+        if x not in seen:
+            seen.add(x)
+            res.append(x)
+    return res
+
+
+def check_C16(work):
+    t0 = time.time()
+    out = Outcome("C16")
+    rng = random.Random(seed())
+    names = c16_names(rng, TIER == "thorough")
+    world = [op("mkfile", path="@TOP@/outer/sib.txt", raw="sibling"), op("mkfile", path="@TOP@/outer/nested/inner.txt", raw="inner"),
+             op("mkfile", path="@TOP@/top.txt", raw="top")]
+    fronts_ = [("plain", plain("outer/W", 100000)), ("sharded", sharded("outer/W", 2, 100000)),
+               ("stack", stack(plain("outer/W", 100000), [plain("outer/R")], "none", True))]
+    jobs = []
+    per = 6
+    for fname, cache in fronts_:
+        apis = ["set", "put", "get", "touch"] + (["ensure"] if fname == "stack" else [])
+        for api in apis:
+            for i in range(0, len(names), per):
+                prog = []
+                for nm in names[i:i + per]:
+                    o = op(api, nm)
+                    o["hash"], o["sec"] = "1", "2"
+                    prog.append(o)
+                jobs.append(seq_job("C16-%s-%s-%d" % (fname, api, i), "%s:%s" % (fname, api), cache, prog, world=world,
+                                    mkdirs=("SRC", "TMP", "outer")))
+    mons = ["ConfinedStrict", "RejectedOK", "RejectedNoEffect", "OutsideUntouched", "DirValid"]
+
+    def key_of(job, mon, ev, evs):
+        # the witness is the name class: which kind of name broke out
+        p, opi = ev.get("p"), ev.get("opi")
+        call = next((e for e in evs if e.get("e") == "call" and e.get("p") == p and e.get("opi") == opi), {})
+        nm = call.get("key", "?")
+        cls = "slash" if "/" in nm else "plain"
+        return "%s@%s" % (mon, cls)
+    st = trace_check(work, out, jobs, mons, tag="c16", key_of=key_of)
+    cov = coverage_mc(st, [], "every name of the generated set (all sequences over {a . / \\ non-ASCII} up to length %d plus fixed boundary names) x "
+                      "{set,put,get,touch,ensure} x {plain,sharded,stacked}, cache placed inside a sentinel tree; every mutating call and every "
+                      "snapshot judged by ConfinedStrict/Rejected*/OutsideUntouched" % (4 if TIER == "thorough" else 3),
+                      dict(names=len(names), jobs=len(jobs), monitors=mons, exhaustive=True))
+    return finish("C16", out, t0, "model_checking", cov, BASE_ASSUME)
+
+
+
+# ---------------------------------------------------------------------------
+# C07 / C17: directory populations
+
+MARKS = {"unread": -120.0, "equal": 0.0, "read": 5.0}    # atime - mtime
+
+
+def population_ops(d, files, strays=0, dots=(), temps=()):
+    """World-building ops for one directory population.
+    files: list of (name, rank, mark); mtime = now - 1000 + 10*rank seconds."""
+    ops = [op("mkdir", path="@TOP@/%s" % d)]
+    for (name, rank, mark) in files:
+        ago = 1000.0 - 10.0 * rank
+        ops.append(op("mkfile", path="@TOP@/%s/%s" % (d, name), key=name, val="v" + name, chunks=1, mode=0o444,
+                      mt_ago=ago, at_ago=ago - MARKS[mark]))
+    for i in range(strays):
+        ops.append(op("mkdir", path="@TOP@/%s/sub%d" % (d, i)))
+        ops.append(op("mkfile", path="@TOP@/%s/sub%d/inner" % (d, i), raw="x"))
+    for (name, ago, isdir) in dots:
+        if isdir:
+            ops.append(op("mkdir", path="@TOP@/%s/%s" % (d, name)))
+            ops.append(op("mkfile", path="@TOP@/%s/%s/inner" % (d, name), raw="appdir"))
+        else:
+            ops.append(op("mkfile", path="@TOP@/%s/%s" % (d, name), raw="appdata", mt_ago=ago, at_ago=ago + 120))
+    for (name, ago, isdir) in temps:
+        if isdir:
+            ops.append(op("mkdir", path="@TOP@/%s/.kismet_temp/%s" % (d, name)))
+            ops.append(op("utimes", path="@TOP@/%s/.kismet_temp/%s" % (d, name), mt_ago=ago, at_ago=ago))
+        else:
+            ops.append(op("mkfile", path="@TOP@/%s/.kismet_temp/%s" % (d, name), raw="debris", mt_ago=ago, at_ago=ago))
+    return ops
+
+
+def all_populations(nmax, ranks=(0, 1, 2)):
+    marks = list(MARKS)
+    for n in range(0, nmax + 1):
+        for combo in itertools.product(itertools.product(ranks, marks), repeat=n):
+            yield [("f%d" % (i + 1), r, m) for i, (r, m) in enumerate(combo)]
+
+
+def check_C07(work):
+    t0 = time.time()
+    out = Outcome("C07")
+    rng = random.Random(seed())
+    pops = []
+    nmax = Q(3, 4)
+    for files in all_populations(nmax):
+        n = len(files)
+        for strays in (0, 1):
+            for cap in range(0, n + 2):
+                pops.append((files, strays, cap))
+    # seeded larger populations
+    for _ in range(Q(60, 600)):
+        n = rng.randint(4, 12)
+        files = [("f%d" % (i + 1), rng.randint(0, 5), rng.choice(list(MARKS))) for i in range(n)]
+        pops.append((files, rng.randint(0, 1), rng.randint(0, n + 1)))
+    if TIER == "quick":
+        # all populations with <= 2 files, a seeded half of the rest
+        small = [p for p in pops if len(p[0]) <= 2]
+        rest = [p for p in pops if len(p[0]) > 2]
+        rng.shuffle(rest)
+        pops = small + rest[: len(rest) // 2]
+    jobs = []
+    per = 8
+    for i in range(0, len(pops), per):
+        group = pops[i:i + per]
+        # (a) raw_cache::prune, all populations of the group in one actor, each in its own directory
+        world, prog, roots = [], [], []
+        for k, (files, strays, cap) in enumerate(group):
+            d = "D%d" % k
+            world += population_ops(d, files, strays)
+            prog.append(op("prune", dir="@TOP@/%s" % d, cap=cap))
+            roots.append(root(d, "plain", "w"))
+        jobs.append(seq_job("C07-prune-%d" % i, "prune", plain("D0", 100000), prog, world=world, roots=roots,
+                            cfg_extra={"seq": True}))
+    # (b) through the public write path: plain cache whose trigger always fires; sharded shard
+    sub = pops[:: Q(9, 3)]
+    for i, (files, strays, cap) in enumerate(sub):
+        world = population_ops("W", files, strays)
+        jobs.append(seq_job("C07-set-%d" % i, "plain-set", plain("W", cap), [op("set", "znew", "new")], world=world, draw=ALWAYS,
+                            cfg_extra={"seq": True}))
+    for i, (files, strays, cap) in enumerate(sub[:: 3]):
+        # all files live in shard 0 of a 2-shard cache (hash pair maps to shards (0,1)); per-shard capacity = ceil(total/2)
+        total = max(2, 2 * cap)
+        world = population_ops("W/.kismet_0000", files, strays)
+        o = op("set", "znew", "new")
+        o["hash"], o["sec"] = "1", "2"
+        jobs.append(seq_job("C07-shard-%d" % i, "sharded-set", sharded("W", 2, total), [o], world=world, draw=ALWAYS,
+                            cfg_extra={"seq": True, "shardcap": max(1, (total + 1) // 2)}, shard_script=[1] * 8))
+    mons = ["PruneOK", "RemovalOK", "DirValid"]
+    st = trace_check(work, out, jobs, mons, tag="c07")
+    design = design_runs(work, out, Q(["MCsc4"], ["MCsc4", "MCsc5"]))
+    cov = coverage_mc(st, design, "directory populations (files x mtime rank incl. ties x read mark {atime<mtime, =, >} x stray subdirectory x capacity 0..n+1), "
+                      "exhaustive up to n=%d (quick: n<=2 exhaustive + seeded half of n=3) plus seeded n<=12; maintenance entered through raw_cache::prune, "
+                      "plain set, sharded set; before/after snapshots judged by PruneOK (= PlanOK of SecondChance.tla lifted to directories)" % nmax,
+                      dict(populations=len(pops), jobs=len(jobs), monitors=mons, exhaustive=(TIER == "thorough")))
+    return finish("C07", out, t0, "model_checking", cov, BASE_ASSUME)
+
+
+def check_C17(work):
+    t0 = time.time()
+    out = Outcome("C17")
+    rng = random.Random(seed())
+    jobs = []
+    ages = [3590, 3598, 3602, 3610, 31536000]
+    pops = list(all_populations(Q(2, 3), ranks=(3, 5)))
+    rng.shuffle(pops)
+    pops = pops[: Q(30, 400)]
+    k = 0
+    for files in pops:
+        n = len(files)
+        for cap in sorted(set([0, 1, max(0, n - 1), n + 1])):
+            dots = [(".appdata", 2000.0, False), (".appdir", 0, True)]
+            if k % 2 == 0:
+                dots.append((".newer", 1.0, False))
+            temps = [("debris%d" % i, a, False) for i, a in enumerate(ages)] + [("nested", 4000, True)]
+            world = population_ops("W", files, 1, dots=dots, temps=temps)
+            prog = [op("set", "znew%d" % k, "new"), op("put", "zput%d" % k, "new2")]
+            jobs.append(seq_job("C17-plain-%d" % k, "plain", plain("W", cap), prog, world=world, draw=ALWAYS))
+            if k % 3 == 0:
+                total = max(2, 2 * cap)
+                world = population_ops("W/.kismet_0000", files, 1, dots=dots, temps=temps)
+                o = op("set", "znew", "new")
+                o["hash"], o["sec"] = "1", "2"
+                jobs.append(seq_job("C17-shard-%d" % k, "sharded", sharded("W", 2, total), [o], world=world, draw=ALWAYS,
+                                    shard_script=[1] * 8))
+            k += 1
+    mons = ["RemovalOK", "DotFilesUntouched", "YoungTempKept", "StaleGone", "DirValid", "OutsideUntouched"]
+
+    def key_of(job, mon, ev, evs):
+        n = (ev.get("path") or {}).get("n", "")
+        cls = "dotfile" if n.startswith(".") and not n.startswith(".kismet") else "other"
+        return "%s@%s" % (mon, cls)
+    st = trace_check(work, out, jobs, mons, tag="c17", key_of=key_of)
+    design = design_runs(work, out, Q(["MCcleanq"], ["MCcleanq", "MCclean"]))
+    cov = coverage_mc(st, design, "populations of key files + dot-prefixed application files and directories + .kismet_temp debris aged "
+                      "{limit-10s, limit-2s, limit+2s, limit+10s, 1 year} + nested directories, capacities {0,1,n-1,n+1}; plain and sharded; "
+                      "every unlink/rmdir and every snapshot judged by RemovalOK/DotFilesUntouched/YoungTempKept/StaleGone",
+                      dict(jobs=len(jobs), monitors=mons))
+    return finish("C17", out, t0, "model_checking", cov, BASE_ASSUME)
+
+
+CHECKS = {"C01": check_C01, "C05": check_C05, "C07": check_C07, "C16": check_C16, "C17": check_C17}
 
 NOT_APPLICABLE = {}
